@@ -109,7 +109,9 @@ export async function run(ctx) {
             history = `the content of the trailing inline module of ${files[j][0]} was replaced through set_inline_script_content`
           }
         }
-        cases.push({ id: cases.length, g, files: filesH, scripts: scriptsH, split: history && hk === 1 ? undefined : split, script_split: history && hk === 1 ? undefined : script_split, want, ...(set_inline ? { set_inline } : {}), how: { process: p, order, split, script_split, history } })
+        // (the imported group may have been created in the other mode, dev / not dev: the destination's mode governs)
+        const sub_other_mode = split !== undefined && (oi + p) % 2 === 0
+        cases.push({ id: cases.length, g, files: filesH, scripts: scriptsH, split: history && hk === 1 ? undefined : split, script_split: history && hk === 1 ? undefined : script_split, want, ...(sub_other_mode ? { sub_other_mode } : {}), ...(set_inline ? { set_inline } : {}), how: { process: p, order, split, script_split, history } })
       })
     })
     const res = gevBatch('tmpl', cases.map(({ g, how, ...c }) => c))
@@ -135,11 +137,16 @@ export async function run(ctx) {
   })
   // stylesheets
   const sheets = ['.a .b{width:75rpx;color:red}@media (width:1rpx){.c{margin:0 1px}}:host{color:blue}', '@import "x.css" screen;.a{b:calc(1rpx + 2px)}', '.x,.y>.z{u:U+0-7F;k:url(a.png)}@keyframes k{from{a:1}50%{a:2}}']
-  const opts = [{ class_prefix: 'p', convert_host: true, host_is: 'h', import_sign: 'IMP', class_prefix_sign: 'S' }, {}]
+  // (several option sets that share rpx values, class names and import paths: what one transformation leaves behind in
+  //  the process must not reach the next one; every process runs the cases in another order)
+  const opts = [{ class_prefix: 'p', convert_host: true, host_is: 'h', import_sign: 'IMP', class_prefix_sign: 'S' }, {}, { rpx_ratio: 375 }, { rpx_ratio: 10, class_prefix: 'q', import_sign: 'I2' }, { class_prefix: 'p', rpx_ratio: 1 }]
   const seen = new Map()
   for (let p = 0; p < P; p++) {
     const cases = []
     sheets.forEach((css, i) => opts.forEach((o, j) => cases.push({ id: i * 10 + j, css, path: 'p', opts: o, tokens: false })))
+    // (rotated and, in every second process, reversed)
+    for (let k = 0; k < (p * 7) % cases.length; k++) cases.push(cases.shift())
+    if (p % 2) cases.reverse()
     const res = gevBatch('css', cases)
     for (const c of cases) {
       const r = res.get(c.id)
